@@ -223,6 +223,124 @@ Definition disk_raw (perdisk : bool) (sysblock : text -> bool) (src : disk_src)
 Definition disk_io_counters (perdisk : bool) (sysblock : text -> bool) (src : disk_src) : outcome front_res :=
   do raw <- disk_raw perdisk sysblock src; front sdiskio_fields perdisk raw.
 
+(* ------------------------------------------------ nowrap=True: _common._WrapNumbers (one cache name) *)
+(* self.cache[name] (None = no entry), self.reminders[name] restricted to its non-zero entries
+   (reminder_keys[name] only serves to delete exactly those when a key goes away) *)
+Record wcache := { wc_prev : option (list (text * list Z)); wc_rem : list ((text * nat) * Z) }.
+Definition wc_init : wcache := {| wc_prev := None; wc_rem := [] |}.     (* after cache_clear() *)
+
+Fixpoint dget {V} (k : text) (d : list (text * V)) : option V :=
+  match d with
+  | [] => None
+  | (k', v) :: r => if beqb k k' then Some v else dget k r
+  end.
+Definition has_key {V} (k : text) (d : list (text * V)) : bool :=
+  match dget k d with Some _ => true | None => false end.
+Definition remkey_eqb (a b : text * nat) : bool := beqb (fst a) (fst b) && Nat.eqb (snd a) (snd b).
+Fixpoint rem_get (k : text * nat) (rem : list ((text * nat) * Z)) : Z :=
+  match rem with
+  | [] => 0
+  | (k', v) :: r => if remkey_eqb k k' then v else rem_get k r
+  end.
+Fixpoint rem_add (k : text * nat) (v : Z) (rem : list ((text * nat) * Z)) : list ((text * nat) * Z) :=
+  match rem with
+  | [] => [(k, v)]
+  | (k', v') :: r => if remkey_eqb k k' then (k', v' + v) :: r else (k', v') :: rem_add k v r
+  end.
+
+(* for i in range(len(input_tuple)): if input_value < old_value: reminders[remkey] += old_value
+   bits.append(input_value + reminders[remkey])          (old_tuple[i]: IndexError if shorter) *)
+Fixpoint wrap_tuple (key : text) (i : nat) (inp old : list Z) (rem : list ((text * nat) * Z))
+  : outcome (list Z * list ((text * nat) * Z)) :=
+  match inp with
+  | [] => Val ([], rem)
+  | x :: inp' =>
+    match old with
+    | [] => Exc IndexError
+    | o :: old' =>
+      let rem1 := if x <? o then rem_add (key, i) o rem else rem in
+      do r <- wrap_tuple key (S i) inp' old' rem1;
+      Val (x + rem_get (key, i) rem1 :: fst r, snd r)
+    end
+  end.
+
+(* _remove_dead_reminders: keys of the cached dict that the new dict lacks *)
+Definition remove_dead (old input : list (text * list Z)) (rem : list ((text * nat) * Z)) :=
+  filter (fun e => negb (has_key (fst (fst e)) old && negb (has_key (fst (fst e)) input))) rem.
+
+Fixpoint wrap_loop (old input : list (text * list Z)) (rem : list ((text * nat) * Z))
+  : outcome (list (text * list Z) * list ((text * nat) * Z)) :=
+  match input with
+  | [] => Val ([], rem)
+  | (key, t) :: r =>
+    match dget key old with
+    | None => do x <- wrap_loop old r rem; Val ((key, t) :: fst x, snd x)     (* a new key *)
+    | Some ot =>
+      do y <- wrap_tuple key 0 t ot rem;
+      do x <- wrap_loop old r (snd y);
+      Val ((key, fst y) :: fst x, snd x)
+    end
+  end.
+
+(* _WrapNumbers.run: returns the adjusted dict; the cache entry is REBOUND to the input dict, so a
+   key that is not in this call's input is forgotten *)
+Definition wrap_run (st : wcache) (input : list (text * list Z)) : outcome (list (text * list Z) * wcache) :=
+  match wc_prev st with
+  | None => Val (input, {| wc_prev := Some input; wc_rem := [] |})
+  | Some old =>
+    do x <- wrap_loop old input (remove_dead old input (wc_rem st));
+    Val (fst x, {| wc_prev := Some input; wc_rem := snd x |})
+  end.
+
+(* the front ends with the default nowrap=True:
+     rawdict = _psplatform...()
+     if not rawdict: return {} if per else None        <- before _wrap_numbers: the cache is not touched
+     rawdict = _wrap_numbers(rawdict, name) ; ... as [front] *)
+Definition front_wrap (fields : list bytes) (per : bool) (st : wcache) (raw : list (text * list Z))
+  : outcome (front_res * wcache) :=
+  match raw with
+  | [] => Val (if per then RDict [] else RNone, st)
+  | _ => do x <- wrap_run st raw; do f <- front fields per (fst x); Val (f, snd x)
+  end.
+
+(* successive psutil.net_io_counters(pernic=per) calls, default nowrap, starting from cache state [st];
+   a call that raises leaves the cache as it was (the platform call fails before _wrap_numbers;
+   IndexError inside run() cannot happen with the fixed-width tuples) *)
+Fixpoint net_polls (legacy : bool) (st : wcache) (polls : list (bool * bytes)) : list (xout front_res) :=
+  match polls with
+  | [] => []
+  | (per, c) :: r =>
+    match net_raw legacy c with
+    | XV (Val raw) =>
+      match front_wrap snetio_fields per st raw with
+      | Val (f, st') => XV (Val f) :: net_polls legacy st' r
+      | Exc e => XV (Exc e) :: net_polls legacy st r
+      | OutOfModel => XV OutOfModel :: net_polls legacy st r
+      end
+    | XV (Exc e) => XV (Exc e) :: net_polls legacy st r
+    | XV OutOfModel => XV OutOfModel :: net_polls legacy st r
+    | XAssert => XAssert :: net_polls legacy st r
+    end
+  end.
+
+(* successive psutil.disk_io_counters(perdisk=per) calls, default nowrap; both values of perdisk share
+   the one cache name 'psutil.disk_io_counters'; /sys/block may change between calls *)
+Fixpoint disk_polls (st : wcache) (polls : list (bool * (text -> bool) * disk_src)) : list (outcome front_res) :=
+  match polls with
+  | [] => []
+  | (per, sb, src) :: r =>
+    match disk_raw per sb src with
+    | Val raw =>
+      match front_wrap sdiskio_fields per st raw with
+      | Val (f, st') => Val f :: disk_polls st' r
+      | Exc e => Exc e :: disk_polls st r
+      | OutOfModel => OutOfModel :: disk_polls st r
+      end
+    | Exc e => Exc e :: disk_polls st r
+    | OutOfModel => OutOfModel :: disk_polls st r
+    end
+  end.
+
 (* ------------------------------------------------ disk_usage *)
 (* os.statvfs result: f_bsize (preferred I/O block size) and f_frsize (fragment size, the unit of
    f_blocks / f_bfree / f_bavail) are independent fields; the code uses f_frsize only *)
